@@ -1,6 +1,8 @@
 package proxy
 
 import (
+	"time"
+
 	"go.temporal.io/server/api/adminservice/v1"
 )
 
@@ -30,7 +32,18 @@ func rtRunActions(e *rtEnv, nActions int, maxBatch int) {
 		if e.stallable {
 			nActs += e.nTgt
 		}
+		if e.idleAction {
+			nActs++
+		}
 		a := verifChoose("action", nActs)
+		if e.idleAction && a == nActs-1 {
+			// everything idles for a bit more than a second: keep-alive tickers fire
+			verifAction("idle")
+			verifAdvance(1100 * time.Millisecond)
+			verifQuiesce()
+			verifQuiesce()
+			continue
+		}
 		if a >= nSrcActs+e.nTgt {
 			t := e.targets[a-nSrcActs-e.nTgt]
 			if t.stalled {
